@@ -97,7 +97,7 @@ def sem_sig(body, s, depth=0):
             nm = body.name_of(s.local) or ''
             return re.sub(r'#\d+', '', txt).replace(nm.split('#')[0], 'var:' + ty.rsplit('::', 1)[-1], 1) if nm else txt
         txt = body.place_str({'l': s.local, 'p': pj})
-        return re.sub(r'#\d+', '', txt)
+        return re.sub(r'^\*+', '*', re.sub(r'#\d+', '', txt))      # `**x` (a captured reference, inlined) reads as `*x`
     if s.kind == 'const':
         return str(s.const).rsplit('::', 1)[-1]
     if s.kind == 'call':
@@ -256,7 +256,14 @@ class Site:
 
 def sites(P, crate):
     out = []
+    il = getattr(P, 'inline_log', None)
+    gone_closures = set()
+    if il is not None:
+        # a closure literal that the view wrote into its (only) caller: its operations are inventoried there
+        gone_closures = {p for p in getattr(il, 'inlined_fns', ()) if p not in getattr(il, 'kept', ()) and re.search(r'\{closure#\d+\}$', p)}
     for b in P.all_bodies(crate=crate, statics=True):
+        if b.path in gone_closures and b.kind == 'Closure':
+            continue
         b._ensure()
         for i, blk in enumerate(b.blocks):
             if blk['cleanup'] or ('b', i) not in b.reachable:
